@@ -134,7 +134,8 @@ def gen_objlib(rng):
         classes.append({'name': nm, 'chain': chain, 'pstruct': pstruct, 'abstract': rng.random() < 0.2, 'final': rng.random() < 0.15,
                         'implements': impl, 'props': gen_props(rng, rng.choice([0, 1, 2, 4])), 'signals': gen_signals(rng, rng.choice([0, 1, 2])),
                         'vfuncs': gen_vfuncs(rng, nm, rng.choice([0, 1, 2, 4])), 'class_struct': rng.random() < 0.85,
-                        'methods': rng.choice([0, 1, 2]), 'ctor': rng.random() < 0.7, 'accessors': rng.random() < 0.5})
+                        'methods': rng.choice([0, 1, 2]), 'ctor': rng.random() < 0.7, 'accessors': rng.random() < 0.5,
+                        'async': rng.random() < 0.3})
         own.append(nm)
     for f in ifaces:
         if rng.random() < 0.5:
@@ -233,6 +234,12 @@ def render_objlib(m, rng=None):
             h.append('%s *%s_new (void);' % (nm, us))
         for k in range(c['methods']):
             h.append('void %s_method%d (%s *self, gint x);' % (us, k, nm))
+        if c.get('async'):
+            # an asynchronous operation with its finish function, the synchronous sibling of the default name and another one
+            h.append('void %s_fetch_async (%s *self, GCancellable *cancellable, GAsyncReadyCallback callback, gpointer user_data);' % (us, nm))
+            h.append('gboolean %s_fetch_finish (%s *self, GAsyncResult *result, GError **error);' % (us, nm))
+            h.append('gboolean %s_fetch (%s *self, GCancellable *cancellable, GError **error);' % (us, nm))
+            h.append('gboolean %s_fetch_blocking (%s *self, GCancellable *cancellable, GError **error);' % (us, nm))
         for sg in c['signals']:
             if sg.get('emitter'):
                 ps = [('%s *' % nm, 'self')] + [(GTYPE_TO_C[t], 'a%d' % i) for i, t in enumerate(sg['params'])]
